@@ -73,6 +73,12 @@ TEXTS = {
              "repaired by fix: commits (dropped error, nil reader, exp-histogram optional columns).",
         design_ref="DESIGN.md 6/C07", note="Trusted: Coq kernel + vm_compute; no axioms; Go harness + verif hook in consumer.go; arrow-go reader behaviour is an input.",
         technique="Coq proof (total model of the stream-table and dispatch logic) + fault-injection differential"),
+    "C12": dict(
+        text="Theorems over the model of Producer.Produce for EVERY history of record messages: batch ids count up from zero; a schema id denotes one payload type and one schema over the whole stream; "
+             "every emitted id belongs to a live stream producer with a fresh id, at most one per payload type. Partial: IPC-stream validity per schema id is the Arrow library's contract, checked on every "
+             "run with an independent reader. Tied by predicting batch ids and schema ids of real histories (interleaved signals, schema changes, dictionary overflow/reset, compression on/off).",
+        design_ref="DESIGN.md 6/C12", note="Trusted: Coq kernel + vm_compute; no axioms; Go harness; arrow-go IPC (validated by the independent reader).",
+        technique="Coq proof (invariant over histories of the stream-producer table) + framing differential + independent reader"),
 }
 
 NOT_APPLICABLE = []
